@@ -250,18 +250,41 @@ var simKinds = []struct {
 	{model.TargetType_ENEMIES, model.TargetType_ALLIES, model.TargetType_ALLIES, 1, 1, 120, 120, 800},
 	{model.TargetType_ENEMIES, model.TargetType_SELF, model.TargetType_SELF, 2, 1, 90, 90, 1200},
 	{model.TargetType_ENEMIES, model.TargetType_ENEMIES, model.TargetType_ENEMIES, 0, 2, 110, 134, 600},
+	{model.TargetType_ENEMIES, model.TargetType_ENEMIES, model.TargetType_ENEMIES, 1, 1, 100, 105, 900}, // two ultimates (info.MultiUlt)
+}
+
+// kind 4 has two ultimates and no single one
+type scriptedMultiChar struct {
+	eng engine.Engine
+	id  key.TargetID
+}
+
+func (c *scriptedMultiChar) Attack(t key.TargetID, _ info.ActionState) {
+	curSim.runProg(curSim.attack[c.id], c.id, t)
+}
+func (c *scriptedMultiChar) Skill(t key.TargetID, _ info.ActionState) {
+	curSim.runProg(curSim.skill[c.id], c.id, t)
+}
+func (c *scriptedMultiChar) Technique(t key.TargetID, _ info.ActionState) {}
+func (c *scriptedMultiChar) UltAttack(t key.TargetID, _ info.ActionState) {
+	curSim.runProg(curSim.ult[c.id], c.id, t)
+}
+func (c *scriptedMultiChar) UltSkill(t key.TargetID, _ info.ActionState) {
+	curSim.runProg(curSim.ult[c.id], c.id, t)
 }
 
 func registerScripted() {
 	for i, k := range simKinds {
 		character.Register(key.Character(fmt.Sprintf("verifchar%d", i)), character.Config{
 			Create: func(e engine.Engine, id key.TargetID, _ info.Character) info.CharInstance {
-				c := &scriptedChar{eng: e, id: id}
 				cs := curSim
 				idx := cs.charIdx
 				cs.charIdx++
 				cs.attack[id], cs.skill[id], cs.ult[id] = cs.cattack[idx], cs.cskill[idx], cs.cult[idx]
-				return c
+				if i == 4 {
+					return &scriptedMultiChar{eng: e, id: id}
+				}
+				return &scriptedChar{eng: e, id: id}
 			},
 			Promotions: []character.PromotionData{{MaxLevel: 80, ATKBase: 100, DEFBase: 100, HPBase: k.hp, SPD: k.spd, CritChance: 0.05, CritDMG: 0.5, Aggro: 100}},
 			Rarity:     4,
@@ -500,7 +523,7 @@ func parseProgs(s string) [][]simCmd {
 	return out
 }
 
-var decNames = map[byte]string{'a': "attack", 's': "skill", 'u': "ult", 'x': "", 'v': "ult_attack", 'e': "end"}
+var decNames = map[byte]string{'a': "attack", 's': "skill", 'u': "ult", 'x': "", 'v': "ult_attack", 'w': "ult_skill", 'e': "end"}
 
 func parseDec(s string) simDec {
 	n, _ := strconv.Atoi(s[1:])
@@ -533,7 +556,7 @@ func parseUlts(s string) [][]simUlt {
 		var l []simUlt
 		if part != "_" {
 			for _, u := range strings.Split(part, "+") {
-				i := strings.IndexAny(u, "asuxve")
+				i := strings.IndexAny(u, "asuxvwe")
 				t, _ := strconv.Atoi(u[:i])
 				d := parseDec(u[i:])
 				l = append(l, simUlt{target: t, typ: d.typ, ev: d.ev})
